@@ -35,7 +35,10 @@ C01_CFGS = [{}, {'options': {'output.format': False}}, {'options': {'output.self
 C02_CFGS = [{}, {}, {'maxRepeat': 1}, {'maxRepeat': 2}, {'maxRepeat': 3}, {'maxRepeat': 5}, {'maxRepeat': 9}, {'options': {'output.format': False}}]
 C03_CFGS = [{}, {'options': {'output.attributeQuotes': 'single'}}, {'options': {'output.reverseAttributes': True}}, {'options': {'output.compactBoolean': True}},
             {'options': {'output.attributeCase': 'upper'}}, {'syntax': 'jsx'}, {'syntax': 'vue'}, {'syntax': 'xml'}, {'options': {'output.selfClosingStyle': 'xhtml', 'output.compactBoolean': True, 'output.reverseAttributes': True}},
-            {'options': {'output.booleanAttributes': ['lang', 'foo']}}]
+            {'options': {'output.booleanAttributes': ['lang', 'foo']}}, {'syntax': 'jsx', 'options': {'output.attributeCase': 'upper'}}, {'syntax': 'vue', 'options': {'output.attributeCase': 'upper'}},
+            {'syntax': 'jsx', 'options': {'output.attributeCase': 'lower', 'output.reverseAttributes': True}},
+            {'snippets': {'pair': 'dt+dd', 'trio': 'dt+dd+dl'}}, {'snippets': {'pair': 'dt+dd', 'trio': 'dt+dd+dl'}, 'options': {'output.reverseAttributes': True}}]
+C03_ALIASES = {'pair': ['dt', 'dd'], 'trio': ['dt', 'dd', 'dl']}
 
 
 def skeletons(k):
@@ -108,7 +111,10 @@ def cases(tier, seed, prop):
     elif prop == 'C03':
         n = 4000 if tier == 'quick' else 50000
         for _ in range(n):
-            out.append({'seq': mk.gen_seq(rnd, opt, [rnd.randint(1, 4)], 1), 'c': rnd.choice(C03_CFGS), 'g': 'random'})
+            c = rnd.choice(C03_CFGS)
+            # a user snippet with several top-level elements: what is written on the alias belongs to each of them
+            o2 = dict(opt, names=opt['names'] + ['pair', 'trio', 'pair', 'trio']) if 'snippets' in c else opt
+            out.append({'seq': mk.gen_seq(rnd, o2, [rnd.randint(1, 4)], 1), 'c': c, 'g': 'random'})
     elif prop == 'C04':
         n = 3000 if tier == 'quick' else 40000
         # exhaustive short payloads over the punctuation alphabet (well-formed ones only) at two positions
@@ -137,7 +143,7 @@ def cases(tier, seed, prop):
         o13 = dict(base_opt('C04'), names=['div', 'p', 'span', 'ul', 'li', 'em', 'b', 'hr', 'br', 'strong', 'section', 'x', 'table', 'tr', 'td'], p_attr=.5, p_text=.4,
                    attr_pool=[('attr', 'title', None, None), ('attr', 'lang', None, None), ('attr', 'data-x', 'y', 'raw'), ('attr', 'title', '${1}', 'dq'), ('attr', 'alt', '${2:ph} ${1}', 'dq'),
                               ('attr', 'rel', 'a${3}b', 'dq'), ('attr', 'href', '', 'dq')],
-                   text_pool=['txt', '${1}', '${1:one} and ${2}', 'l1\nl2', '${2:b}${1:a}', 'a ${0} z', 'x ${3:c}', 'foo\nbar ${1}', 'Tom & Jerry', 'a & b\nc & d'])
+                   text_pool=['txt', '${1}', '${1:one} and ${2}', 'l1\nl2', '${2:b}${1:a}', 'a ${0} z', 'x ${3:c}', 'foo\nbar ${1}', 'Tom & Jerry', 'a & b\nc & d', 'first ${2:b}\nsecond ${1:a}', '${1:x} one\ntwo', '${3:c}\n${1}\nmid ${2:k}', '${2}\n${1}'])
         for _ in range(n):
             c = {}
             r = rnd.random()
@@ -186,7 +192,14 @@ def cases(tier, seed, prop):
                 c = {'syntax': rnd.choice(['haml', 'pug', 'slim'])}
                 if rnd.random() < .5: c['options'] = {'output.indent': rnd.choice(['\t', '  ', '    ', ' '])}
                 out.append({'seq': seq, 'c': c, 'g': 'random'})
-    for c in out: c['s'] = mk.print_seq(c['seq'])
+        if prop == 'C12':
+            # text nodes with fields and children (the children replace the first field; what follows it must survive every layout)
+            for _ in range(n // 10):
+                t = rnd.choice(FIELD_TPL)
+                c = {'syntax': rnd.choice(['html', 'html', 'xml', 'jsx', 'vue'])}
+                out.append({'s': t, 'c': dict(c, options=rand_layout(rnd)), 'alt': dict(c, options=rand_layout(rnd)), 'g': 'fields'})
+    for c in out:
+        if 'seq' in c: c['s'] = mk.print_seq(c['seq'])
     return out
 
 
@@ -330,7 +343,12 @@ def oracle_C03(case, o):
 
     def walk(f):
         for el in f:
-            els.append(el); walk(el['kids'])
+            tops = C03_ALIASES.get(el['name']) if 'snippets' in case['c'] else None
+            if tops:
+                # multi-root alias: its id / classes / attributes go to every top-level element, its children into the last one
+                for t in tops: els.append(dict(el, name=t))
+            else: els.append(el)
+            walk(el['kids'])
     walk(forest)
     opens = [t for t in mk.read_html(o[1]) if t[0] == 'open']
     if len(opens) != len(els): return ['count| expand(%r): %d tags, expected %d' % (case['s'], len(opens), len(els))]
@@ -566,6 +584,8 @@ def cases_C14(tier, rnd):
             out.append({'s': k + '{t}', 'alt': '+'.join(t + '{t}' for t in tops), 'c': c, 'g': 'multiroot'})
             out.append({'s': k + '/', 'alt': '+'.join(t + '/' for t in tops), 'c': c, 'g': 'multiroot'})
             out.append({'s': k + '.z[q=r]', 'alt': '+'.join(t + '.z[q=r]' for t in tops), 'c': c, 'g': 'multiroot'})
+            for sfx in ('.x.y', '.x.y.z', '#i.x[q=r].y'):
+                out.append({'s': k + sfx, 'alt': '+'.join(t + sfx for t in tops), 'c': c, 'g': 'multiroot'})
         out.append({'s': k + '>u', 'alt': v + '>u', 'c': c, 'g': 'deepest-last'})
         out.append({'s': 'w>' + k + '>u+v', 'alt': 'w>(' + v + '>u+v)', 'c': c, 'g': 'deepest-last'})
     for k, v in [('ri:a', None), ('!', None), ('doc', None)]:
@@ -612,6 +632,8 @@ def rand_layout(rnd):
     return o
 
 
+FIELD_TPL = ['div>{[${0}${1:tail}]}>p*2', 'div>{a ${0} b}>p', '{x${1}${2:y}z}>em+b', 'ul>{${0}${0}}>li*2', 'p>{pre ${1:a}${2:b} post}>span*3', 'div>{${1:one}${2:two}${3:three}}>p+p',
+             'section>{${0}}>div>p', '{${1}${1}}>x', 'div>{[${0} ${1:tail}]}>p*2', 'x>{t${0}}+{u${1:v}${2}}>y*2', 'div>{${0}${1:k}}>ul>li*2', 'a>{(${2}${1:q})}>b*3', 'div>{${0}\n${1:tail}}>p*2']
 COMMENT_RE = re.compile(r'<!--.*?-->', re.S)
 
 
@@ -626,6 +648,11 @@ def oracle_C12(case, o):
         v.append('weave| expand(%r): formatting options %r and %r differ in more than white space: %r vs %r' % (case['s'], case['c'].get('options'), case['alt'].get('options'), o[1], o2[1]))
     # (2) comments only add comment text
     cc = copy.deepcopy(case['c']); cc.setdefault('options', {})['comment.enabled'] = True
+    r12 = random.Random(case['s'])
+    ca = r12.choice([None, None, '[\n<!-- /#ID -->]', ' <!-- /[#ID][.CLASS] -->', '\n<!-- /[#ID][.CLASS] -->\n<!-- end -->', '[\n<!-- /.CLASS -->]'])
+    cb = r12.choice([None, None, None, '<!-- [#ID] -->\n', '[<!-- .CLASS -->\n]'])
+    if ca is not None: cc['options']['comment.after'] = ca
+    if cb is not None: cc['options']['comment.before'] = cb
     o3 = outcome(case['s'], mkcfg(cc))
     if o3[0] != 'ok' or sq(COMMENT_RE.sub('', o3[1])) != base:
         v.append('comments| expand(%r) with comments enabled differs from the plain output by more than comments: %r vs %r' % (case['s'], o3[1], o[1]))
@@ -637,6 +664,7 @@ def oracle_C12(case, o):
         outs.append(re.sub(r'\s*/>', '>', o4[1]) if o4[0] == 'ok' else repr(o4))
     if len(set(outs)) != 1: v.append('self-closing| expand(%r): self-closing styles differ in more than the slash: %r' % (case['s'], outs))
     # (4) indentation = number of elements open at that point
+    if 'seq' not in case: return v
     opt = Config(mkcfg(case['c'])).options
     forest = mk.unroll(mk.flat(case['seq']))
     mk.implicit_names(forest, None, [x.lower() for x in opt.get('inlineElements')])
@@ -646,36 +674,54 @@ def oracle_C12(case, o):
         for el in f:
             names.add(el['name'].lower()); collect(el['kids'])
     collect(forest)
-    if opt.get('output.format') and not (names & set(x.lower() for x in opt.get('output.formatSkip'))):     # no element exempted through formatSkip
+    texts = [(o[1], case['c'])]
+    if o3[0] == 'ok': texts.append((o3[1], cc))            # the same layout rule with comments enabled (comment lines are lines too)
+    for text, cdesc in texts:
+      if v: break
+      if opt.get('output.format') and not (names & set(x.lower() for x in opt.get('output.formatSkip'))):     # no element exempted through formatSkip
         nl = opt.get('output.newline'); ind = opt.get('output.indent'); bi = opt.get('output.baseIndent')
-        lines = o[1].split(nl)
+        lines = text.split(nl)
         # which open tags are leaves (a void / self-closed element without children is never closed): from the denoted tree, in
         # document order (= order of the opening tags)
-        leafs = []
+        leafs = []; order = []
 
         def classify(f):
             for el in f:
-                leafs.append((el['name'].lower() in mk.VOID or el['slash']) and not el['kids']); classify(el['kids'])
+                leafs.append((el['name'].lower() in mk.VOID or el['slash']) and not el['kids']); order.append(el); classify(el['kids'])
         classify(forest)
         leaf = set(i for i, b_ in enumerate(leafs) if b_)
         ti = 0
         depth = 0
+        open_units = []
         for li, line in enumerate(lines):
             body = line[len(bi):] if li > 0 else line
             if li > 0:
-                if not line.startswith(bi): v.append('indent| line %d %r does not start with baseIndent %r' % (li, line, bi)); break
+                if not line.startswith(bi): v.append('indent| expand(%r, %r): line %d %r does not start with baseIndent %r' % (case['s'], cdesc, li, line, bi)); break
                 k = 0
                 while ind and body.startswith(ind): body = body[len(ind):]; k += 1
                 want = depth - 1 if body.startswith('</') else depth
                 if ind and k != want and body.strip():
-                    v.append('indent| expand(%r, %r): line %d %r is indented %d units, %d elements are open there' % (case['s'], case['c'], li, line, k, want)); break
+                    v.append('indent| expand(%r, %r): line %d %r is indented %d units, %d elements are open there' % (case['s'], cdesc, li, line, k, want)); break
                 if ind and k != want and not body.strip():
-                    v.append('blank-line| expand(%r, %r): white-space-only line %d %r at %d units, %d elements are open there' % (case['s'], case['c'], li, line, k, want)); break
+                    v.append('blank-line| expand(%r, %r): white-space-only line %d %r at %d units, %d elements are open there' % (case['s'], cdesc, li, line, k, want)); break
+            units = k if li > 0 else 0
+            first_tok = True
             for t in mk.read_html(line):
                 if t[0] == 'open':
-                    if ti not in leaf: depth += 1
+                    if ti not in leaf: depth += 1; open_units.append((units, order[ti] if ti < len(order) else None))
                     ti += 1
-                elif t[0] == 'close': depth -= 1
+                elif t[0] == 'close':
+                    depth -= 1
+                    ou, oel = open_units.pop() if open_units else (None, None)
+                    # a closing tag on its own line (first thing on the line) is aligned with the line that holds its opening tag
+                    if first_tok and li > 0 and body.startswith('</') and ou is not None and ind and ou != units:
+                        # known finding F33: an element that was not given a line of its own but whose OWN content is laid out on separate lines
+                        # (multi-line text, or an empty leaf under formatLeafNode / formatForce)
+                        own = oel is not None and ((oel.get('text') and '\n' in oel['text']) or ((opt.get('output.formatLeafNode') or oel['name'].lower() in [x.lower() for x in opt.get('output.formatForce')]) and not oel['kids'] and not oel.get('text')))
+                        v.append('%s| expand(%r, %r): closing tag on line %d %r is indented %d units, the line holding its opening tag %d' % ('align-own-content' if own else 'align', case['s'], cdesc, li, line, units, ou)); break
+                first_tok = False
+            else: continue
+            break
     return v
 
 
